@@ -55,8 +55,11 @@ def parsePad (s : String) : Option Pad :=
       | _, _, _ => none
     | _ => none
 
+/-- `<hdr>:<body>[@<key>]`: the `@<key>` part says under which `Record.key` the holder filed the reply; neither
+`get_record_from_network` (it re-keys what its split handling returns with the *requested* key) nor `chunk_get` /
+`get_vault_from_network` read `Record.key`, so the model's `Rec` has no such field and the driver drops it. -/
 def parseRec (s : String) : Option (Rec Sym) :=
-  match s.splitOn ":" with
+  match ((s.splitOn "@").headD "").splitOn ":" with
   | [h, b] =>
     let hdr : Option (Option Kind) :=
       if h = "c" then some (some .chunk) else if h = "s" then some (some .scratchpad)
@@ -140,10 +143,12 @@ def searchCandidates : List String :=
         | .ok c => if c.value.code ≠ w.code then some s!"chunk {want} ok=c:{got}" else none
         | .error _ => none
       | _, _ => none
+  -- the same substitutions as another chunk's genuine record, filed under that chunk's own key
+  let chunkCands := chunkCands ++ chunkCands.map (· ++ "@own")
   let dataCands : List String :=
     -- a substituted data map / a substituted chunk
     let mk (m e1 : String) := s!"data 0 o=0.0.0 m=ok=c:{m} e0=ok=c:e0.0 e1=ok=c:{e1} e2=ok=c:e0.2"
-    [mk "m1" "e0.1", mk "m0" "e1.1"].filter fun line =>
+    [mk "m1" "e0.1", mk "m0" "e1.1", mk "m1@own" "e0.1", mk "m0" "e1.1@own"].filter fun line =>
       match step () (words line) with
       | (_, out) => out ≠ "ok d0" ∧ (dropPrefix "ok" out).isSome
   let pads : List (Pad × String) :=
@@ -156,6 +161,7 @@ def searchCandidates : List String :=
   let auth (l : List (Pad × String)) : List Pad := (l.map (·.1)).filter fun p => p.owner == 0 && p.valid
   let single : List String := pads.filterMap fun (p, sg) =>
     if bad (.ok ⟨some .scratchpad, .pad p⟩) (auth [(p, sg)]) then some s!"vault 0 ok=s:{padName p sg}" else none
+  let single := single ++ single.map (· ++ "@own")
   let pairs : List String := pads.flatMap fun (p, sp) => pads.filterMap fun (q, sq) =>
     if p = q then none else
     let m : List (Rec Sym) := [⟨some .scratchpad, .pad p⟩, ⟨some .scratchpad, .pad q⟩]
